@@ -2,6 +2,7 @@ package main
 
 import (
 	"fmt"
+	"go/token"
 	"go/types"
 	"regexp"
 	"strings"
@@ -328,6 +329,114 @@ func pointWidth(c *Ctx, rule string, pkgs []string) int {
 				if re.MatchString(form) {
 					k++
 					c.Violated(rule, fname(f), fmt.Sprintf("point encoding #%d pads both coordinates", k), "the byte string "+form+" is 0x04 followed by the minimal-length bytes of two integers: a coordinate with a leading zero byte (about one key in 128) yields an encoding of the wrong length that the parsers reject", call.Pos())
+				}
+			})
+		}
+	}
+	return n
+}
+
+// narrowShift: `x << s` is evaluated in the type of x. When x is an 8- or 16-bit value and s can reach the width of
+// that type, the bits are shifted out BEFORE any widening conversion — uint32(sbox[i] << 16) is always zero, where
+// uint32(sbox[i]) << 16 was meant. Every left shift of a narrow unsigned value in the listed packages must have a
+// constant amount below the operand's width (or its result must stay narrow on purpose: the shift is then exempt only
+// when the amount is a constant below the width).
+func narrowShift(c *Ctx, rule string, pkgs []string) int {
+	n := 0
+	for _, pkg := range pkgs {
+		for _, f := range c.P.RepoFuncs(pkg) {
+			if strings.HasSuffix(c.P.relFile(f.Pos()), "_test.go") {
+				continue
+			}
+			k := 0
+			instrsOf(f, func(_ *ssa.BasicBlock, in ssa.Instruction) {
+				bo, ok := in.(*ssa.BinOp)
+				if !ok || bo.Op != token.SHL {
+					return
+				}
+				bt, ok := bo.X.Type().Underlying().(*types.Basic)
+				if !ok {
+					return
+				}
+				w := int64(0)
+				switch bt.Kind() {
+				case types.Uint8, types.Int8:
+					w = 8
+				case types.Uint16, types.Int16:
+					w = 16
+				default:
+					return
+				}
+				n++
+				k++
+				c.Evals++
+				amt, isK := constInt(stripConvAll(bo.Y))
+				if isK && amt < w {
+					return
+				}
+				why := ""
+				if !isK {
+					// a loop counter with constant start, step and bound: decided from its largest value
+					phi, isPhi := stripConvAll(bo.Y).(*ssa.Phi)
+					if !isPhi {
+						return
+					}
+					ind, ok := inductionOf(phi)
+					if !ok || ind.step <= 0 {
+						return
+					}
+					hi, ok := loopBound(ind)
+					if !ok {
+						return
+					}
+					last := ind.init + (hi-1-ind.init)/ind.step*ind.step
+					if last < w {
+						return
+					}
+					why = fmt.Sprintf("a %d-bit value is shifted left by a loop counter that reaches %d: the bits are lost before the result is widened (the conversion to a wider type must come before the shift)", w, last)
+				}
+				if isK {
+					why = fmt.Sprintf("a %d-bit value is shifted left by %d: the result is always zero (the conversion to a wider type must come before the shift)", w, amt)
+				}
+				c.Violated(rule, fname(f), fmt.Sprintf("left shift of a %d-bit value #%d", w, k), why, bo.Pos())
+			})
+		}
+	}
+	return n
+}
+
+// bitsToBytes: a curve's field width in bytes is ceil(BitSize/8). BitSize/8 (or >>3) applied directly to the field
+// rounds down: for P-521 it yields 65 where coordinates need 66 bytes, so a shared secret copied right-aligned into
+// such a buffer loses its top byte (or the copy's start index goes negative). Decided per use of the BitSize field.
+func bitsToBytes(c *Ctx, rule string, pkgs []string) int {
+	n := 0
+	for _, pkg := range pkgs {
+		for _, f := range c.P.RepoFuncs(pkg) {
+			if strings.HasSuffix(c.P.relFile(f.Pos()), "_test.go") {
+				continue
+			}
+			k := 0
+			instrsOf(f, func(_ *ssa.BasicBlock, in ssa.Instruction) {
+				ld, ok := in.(*ssa.UnOp)
+				if !ok || ld.Op != token.MUL {
+					return
+				}
+				fa, ok := ld.X.(*ssa.FieldAddr)
+				if !ok || fieldName(fa.X.Type(), fa.Field) != "BitSize" || ld.Referrers() == nil {
+					return
+				}
+				for _, u := range *ld.Referrers() {
+					bo, ok := u.(*ssa.BinOp)
+					if !ok {
+						continue
+					}
+					n++
+					k++
+					c.Evals++
+					amt, isK := constInt(bo.Y)
+					if bo.X == ssa.Value(ld) && isK && ((bo.Op == token.SHR && amt == 3) || (bo.Op == token.QUO && amt == 8)) {
+						c.Violated(rule, fname(f), fmt.Sprintf("BitSize converted to a byte count #%d", k), "BitSize is divided by 8 without rounding up: one byte short for curves whose size is not a multiple of 8 (P-521)", bo.Pos())
+					}
 				}
 			})
 		}
